@@ -87,8 +87,13 @@ PROPS["C08"] = dict(
         per_format("hostile", "^TestC08$", 600 if tier == "quick" else 15000, timeout=900 if tier == "quick" else 3400),
         per_format("growth", "^TestC08Growth$", 1 if tier == "quick" else 5, timeout=900 if tier == "quick" else 3400, shrinktime="5s"),
         per_format("tiny", "^TestC08Tiny$", 1 if tier == "quick" else 3, formats=STATEFUL, timeout=900, shrinktime="1s"),
-    ],
+    ] + ([fuzzjob("codec", "FuzzC08Raw", 90)] if tier == "thorough" else []),
 )
+
+
+def fuzzjob(pkg, target, seconds):
+    """a bounded native (coverage-guided) fuzz campaign; thorough tier only; cannot be seeded - the saved input is the reproducible unit"""
+    return dict(name="fuzz-" + target, pkg=pkg, fuzz=target, fuzztime=seconds, run="^$", checks=0, shards=0)
 
 
 def seeded(name, pkg, run, checks, shards, **kw):
@@ -116,7 +121,7 @@ PROPS["C09"] = dict(
         seeded("roundtrip", "hdr", "^TestC09RoundTrip$", 3000 if tier == "quick" else 20000, 1 if tier == "quick" else 8, timeout=1800),
         seeded("parse", "hdr", "^TestC09Parse$", 3000 if tier == "quick" else 20000, 1 if tier == "quick" else 8, timeout=1800),
         seeded("nptsweep", "hdr", "^TestC09NPTSweep$", 150 if tier == "quick" else 600, 1 if tier == "quick" else 4, timeout=1800),
-    ] + ([seeded("nptexhaustive", "hdr", "^TestC09NPTExhaustive$", 1, 16, timeout=3000)] if tier == "thorough" else []),
+    ] + ([seeded("nptexhaustive", "hdr", "^TestC09NPTExhaustive$", 1, 16, timeout=3000), fuzzjob("hdr", "FuzzC09Parse", 90)] if tier == "thorough" else []),
 )
 
 PROPS["C10"] = dict(
@@ -232,7 +237,7 @@ PROPS["C04"] = dict(
         seeded("roundtrip", "wire", "^TestC04$", 200 if tier == "quick" else 3000, 8 if tier == "quick" else 16, timeout=3000),
         seeded("limits", "wire", "^TestC04Limits$", 1500 if tier == "quick" else 20000, 1 if tier == "quick" else 4, timeout=1800),
         seeded("bytes", "wire", "^TestC04Bytes$", 3000 if tier == "quick" else 50000, 1 if tier == "quick" else 4, timeout=1800),
-    ] + ([seeded("splitsweep", "wire", "^TestC04SplitSweep$", 1, 1, timeout=3000)] if tier == "thorough" else []),
+    ] + ([seeded("splitsweep", "wire", "^TestC04SplitSweep$", 1, 1, timeout=3000), fuzzjob("wire", "FuzzC04Bytes", 90)] if tier == "thorough" else []),
 )
 
 PROPS["C05"] = dict(
@@ -255,7 +260,7 @@ PROPS["C05"] = dict(
     jobs=lambda tier: [
         seeded("forward", "sdpx", "^TestC05Forward$", 4000 if tier == "quick" else 50000, 1 if tier == "quick" else 8, timeout=1800),
         seeded("reverse", "sdpx", "^TestC05Reverse$", 8000 if tier == "quick" else 100000, 1 if tier == "quick" else 8, timeout=1800),
-    ],
+    ] + ([fuzzjob("sdpx", "FuzzC05Reverse", 90)] if tier == "thorough" else []),
 )
 
 _c16_jobs = PROPS["C16"]["jobs"]
@@ -298,13 +303,19 @@ PROPS["C02"] = dict(
           "the model state, unchanged by error responses; the server closes a connection only after an error response on it; a session "
           "ends within 3 s of TEARDOWN or of losing its last connection unless it streams over UDP, and not otherwise; every "
           "OnSessionOpen has exactly one OnSessionClose after Server.Close (which returns within 8 s). Non-trivial: the sequence reaches "
-          "PLAY or RECORD and contains >=1 request the model marks illegal or spans >=2 connections. Distinct by case hash."),
+          "PLAY or RECORD and contains >=1 request the model marks illegal or spans >=2 connections. (live) a session streaming over UDP or TCP, "
+          "playing or recording, with 2 s idle/read timeouts, whose peer afterwards sends keep-alive requests (GET_PARAMETER or OPTIONS with the "
+          "session id) and/or media-path traffic (RTCP receiver reports when playing, RTP when recording; datagrams or interleaved frames) every "
+          "100..500 ms, or neither: when what it sends is what that transport accepts as a sign of life the session must survive 2.5 timeouts; "
+          "otherwise it must be closed within timeout + 1 s check period + 1 s clock granularity + 1.5 s. All live cases count as non-trivial. "
+          "Distinct by case hash."),
     assumptions=[
         "the application handler never closes sessions itself; one client at a time",
-        "the idle/read timeout half of the property is checked by a separate job with scaled periods",
+        "the private check period stays at its 1 s default (no hook); the live peer's traffic interval stays well below timeout - 1 s because the UDP path keeps whole seconds",
     ],
     jobs=lambda tier: [
         seeded("sm", "e2e", "^TestC02$", 200 if tier == "quick" else 2500, 8 if tier == "quick" else 16, timeout=3000),
+        seeded("live", "e2e", "^TestC02Live$", 3 if tier == "quick" else 40, 16, timeout=3000),
     ],
 )
 
